@@ -25,8 +25,11 @@ def run_for(ctx, pid):
     res.samples = R.samples.get(pid, [])
     res.analysed = {"catalogue_entries": R.entries, "by_kind": R.kinds, "tier": ctx.tier, "seed": ctx.seed}
     res.floor("catalogue entries", R.entries, 80)
-    for k, n in (("struct", 25), ("tagged_enum", 6), ("unit_enum", 5), ("from", 2), ("try_from", 2)):
-        res.floor("catalogue entries of kind " + k, R.kinds.get(k, 0), n)
+    if not getattr(ctx, "catalogue_excluded", None):
+        for k, n in (("struct", 25), ("tagged_enum", 6), ("unit_enum", 5), ("from", 2), ("try_from", 2)):
+            res.floor("catalogue entries of kind " + k, R.kinds.get(k, 0), n)
+    else:
+        res.notes.append("catalogue entries excluded because the code derived for them does not compile: %s" % sorted(ctx.catalogue_excluded))
     res.trusted_base = ["rustc nightly (macro expansion, type check, MIR construction)", "mirfacts extractor",
                         "rules/skeleton.py + rules/derive_rules.py", "rules/catgen.py reference semantics (documented renaming / attribute meaning)"]
     res.assumptions = ["verdict is per catalogue entry (every template branch in the hand-written base + attribute combinations sampled from VERIF_SEED); generator-level rules extend it to all inputs where stated",
